@@ -543,7 +543,7 @@ def main():
     # bodies are obligations of the property too.  Calls are resolved by name (over-approximation); names with many
     # definitions (from_cbor_value, to_cbor_value, from_i64, new, ...) are not followed automatically - those callees are
     # listed explicitly in obligations.py.
-    auto = callee_closure(text, tab, [n for n, k in obl if k == 'body'])
+    auto = [] if pid in getattr(obligations, 'NO_CLOSURE', ()) else callee_closure(text, tab, [n for n, k in obl if k == 'body'])
     auto_set = set()
     for n in auto:
         if (n, 'body') not in obl and (n, 'lemma') not in obl:
@@ -607,7 +607,9 @@ def main():
             if k != 'body' or n.startswith('kani:') or any(fnmatch.fnmatchcase(n, pat) for pat in keep):
                 continue
             ds = diag_for(run, text, [n])
-            if ds and all(d['message'].startswith('postcondition not satisfied') for d in ds):
+            # functional diagnostics: a failed postcondition, or a failed ghost `assert` (a proof hint); everything else - callee
+            # preconditions (expect / unwrap / indexing / panic!), arithmetic, termination, loop invariants - is safety-relevant
+            if ds and all(d['message'].startswith(('postcondition not satisfied', 'assertion failed')) for d in ds):
                 not_relevant.append(n)
         failed = [(n, k) for n, k in failed if n not in not_relevant]
     rlimit_hit = [d for d in run['diagnostics'] if 'rlimit' in d['message'] or 'Resource limit' in d['message']]
